@@ -75,8 +75,20 @@ fn state(sc: &Sc, epoch: usize, v: (u64, u64, u64)) -> Files {
 }
 
 fn rotate(r: &mut Rng, k: &KeySet, next: &mut u64) -> (KeySet, &'static str) {
-    match r.below(6) {
+    match r.below(7) {
         0 => (k.clone(), "none"),
+        6 => {
+            // revoke the last key, keep the leading ones in place (or replace when only one)
+            let mut keys = k.keys.clone();
+            if keys.len() >= 2 {
+                keys.pop();
+            } else {
+                *next += 1;
+                keys = vec![*next];
+            }
+            let thr = k.thr.min(keys.len() as u64).max(1);
+            (KeySet { keys, thr }, "drop-last")
+        }
         1 => {
             // disjoint
             let n = 1 + r.usize_below(2);
@@ -128,7 +140,7 @@ impl Check for C14 {
         "C14"
     }
     fn rule(&self) -> String {
-        "two-cycle history on one datastore: cycle 1 stores timestamp/snapshot at versions drawn from {small, 2^32, 2^63-1, ...} signed with the then-current keys; before cycle 2 a chain of 0..3 newer roots rotates timestamp and/or snapshot keys (disjoint, overlapping, drop-one, add, threshold-only, none, rotate-and-back); cycle 2 serves low versions; non-trivial = cycle 2 served a timestamp or snapshot version lower than the stored one; distinct = distinct canonical trace".into()
+        "two-cycle history on one datastore: cycle 1 stores timestamp/snapshot at versions drawn from {small, 2^32, 2^63-1, ...} signed with the then-current keys; before cycle 2 a chain of 0..3 newer roots rotates timestamp and/or snapshot keys (disjoint, overlapping, drop-first, drop-last, add, threshold-only, none, rotate-and-back); cycle 2 serves low versions; non-trivial = cycle 2 served a timestamp or snapshot version lower than the stored one; distinct = distinct canonical trace".into()
     }
     fn assumptions(&self) -> Vec<String> {
         vec![
